@@ -443,6 +443,21 @@ func init() {
 		}
 		return x.finish(st, fr, c, VScalar{x.sym.Fresh("time.unixmilli", SInt)})
 	})
+	for _, u := range []struct {
+		name string
+		div  int64
+	}{{"Unix", 1000000000}, {"UnixMicro", 1000}, {"UnixNano", 1}} {
+		u := u
+		reg("(time.Time)."+u.name, "t."+u.name+"(): floor of the instant's Unix nanoseconds divided by the unit when the instant was built by the modelled constructors, otherwise an unconstrained int64", func(x *Exec, st *State, fr *Frame, c *callCtx) bool {
+			if ns, ok := timeNs(x, st, c.args[0]); ok {
+				if u.div == 1 {
+					return x.finish(st, fr, c, VScalar{ns})
+				}
+				return x.finish(st, fr, c, VScalar{App(SInt, "div", ns, IntLit(u.div))})
+			}
+			return x.finish(st, fr, c, VScalar{x.sym.Fresh("time."+strings.ToLower(u.name), SInt)})
+		})
+	}
 	reg("(github.com/robfig/cron/v3.Schedule).Next", "schedule.Next(t) of a schedule parsed from expression e: the instant cronnextns(e, t); for t on a millisecond boundary its millisecond is cronnext(e, ms(t)) -- the definition of the spec function cronnext", func(x *Exec, st *State, fr *Frame, c *callCtx) bool {
 		ns, ok := timeNs(x, st, c.args[1])
 		iv, isI := x.force(st, c.args[0]).(VIface)
